@@ -1,10 +1,10 @@
 (* C14 — variational predictive q(f) and KL(q(u)||p(u)) equal their closed forms.
    Statement file: theorems, [exact lemma], Print Assumptions.  Nothing else.
    Sizes: m inducing points, n data points, all arbitrary.  Inverses / roots are relational. *)
-From Coq Require Import Arith QArith Qcanon List.
+From Coq Require Import Reals Arith QArith Qcanon List.
 Import ListNotations.
-From GPV Require Import Base.LinAlg Base.Exec Models.C14_variational Proofs.C14_variational Proofs.C14_more
-  Models.C14_branches Proofs.C14_branches.
+From GPV Require Import Base.LinAlg Base.Exec Base.Expr Base.Det Models.C14_variational Proofs.C14_variational Proofs.C14_more
+  Models.C14_branches Proofs.C14_branches Proofs.C14_det.
 
 (* UnwhitenedVariationalStrategy.forward (eval branch: one solve against [m - mz, R], R any
    root of S) computes  Kxx - Kxz Kzz^-1 (Kzz - S) Kzz^-1 Kzx *)
@@ -75,6 +75,40 @@ Theorem c14_kl_whitened_eq_unwhitened_partial :
 Proof. intros K. exact (@kl_alg_whitened_eq K). Qed.
 Print Assumptions c14_kl_whitened_eq_unwhitened_partial.
 
+(* FULL version (Base/Det.v proves det (A B) = det A * det B for the model's Laplace determinant):
+   for ANY root L of Kzz and ANY S_w, besides the trace + quadratic part, the determinant of the described
+   covariance S = L S_w L^T is det Kzz * det S_w (generic field, every m) ... *)
+Theorem c14_kl_whitened_eq_unwhitened :
+  forall (K : Fld) m Kzz Kinv L Linv,
+    meq m m (mmul m L (mT L)) Kzz -> is_inverse m L Linv -> is_inverse m Kzz Kinv ->
+    forall mz mw Sw,
+    kl_wh_alg m Sw mw =
+    kl_unwh_alg m Kinv (unwhiten_cov m L Sw) (unwhiten_mean m L mz mw) mz
+    /\ det m (unwhiten_cov m L Sw) = fmul (det m Kzz) (det m Sw).
+Proof. intros K. exact (@kl_whitened_eq_full K). Qed.
+Print Assumptions c14_kl_whitened_eq_unwhitened.
+
+(* ... hence over R the two complete expressions for 2 KL coincide:
+     tr Sw + |mw|^2 - m - ln det Sw
+       = tr(Kzz^-1 S) + (mq-mz)^T Kzz^-1 (mq-mz) - m + ln det Kzz - ln det S,   S = L Sw L^T, mq = mz + L mw *)
+Theorem c14_kl_whitened_eq_unwhitened_log :
+  forall m (Kzz Kinv L Linv : @M RF),
+    meq m m (mmul m L (mT L)) Kzz -> is_inverse m L Linv -> is_inverse m Kzz Kinv ->
+    forall (mz mw Sw : @M RF), (0 < det m Sw)%R -> (0 < det m Kzz)%R ->
+    (0 < det m (unwhiten_cov m L Sw))%R /\
+    (kl_wh_alg m Sw mw - fnat m - ln (det m Sw)
+     = kl_unwh_alg m Kinv (unwhiten_cov m L Sw) (unwhiten_mean m L mz mw) mz - fnat m
+       + ln (det m Kzz) - ln (det m (unwhiten_cov m L Sw)))%R.
+Proof. exact kl_whitened_eq_log. Qed.
+Print Assumptions c14_kl_whitened_eq_unwhitened_log.
+
+Example ex_c14_kl_log_hypotheses :
+  let L : @M RF := fun _ _ => 2%R in let Kzz : @M RF := fun _ _ => 4%R in
+  meq 1 1 (mmul 1 L (mT L)) Kzz /\ is_inverse 1 L (fun _ _ => (/ 2)%R) /\ is_inverse 1 Kzz (fun _ _ => (/ 4)%R)
+  /\ (0 < det 1 (fun _ _ => 3%R : @car RF))%R /\ (0 < det 1 Kzz)%R.
+Proof. exact ex_kl_log_hyps. Qed.
+Print Assumptions ex_c14_kl_log_hypotheses.
+
 (* the log-det part of that change of variables, for the factors the code works with: for
    lower-triangular L (Cholesky factor of Kzz) and C (factor of S_w, CholeskyVariationalDistribution),
    L C is the lower-triangular factor of S = L S_w L^T and its squared diagonal product
@@ -90,6 +124,20 @@ Theorem c14_kl_logdet_whitening_triangular_partial :
     = fmul (fmul (diag_prod n L) (diag_prod n L)) (fmul (diag_prod n C) (diag_prod n C)).
 Proof. intros K. exact (@triangular_factor_logdet K). Qed.
 Print Assumptions c14_kl_logdet_whitening_triangular_partial.
+
+(* FULL version: the squared diagonal products of the triangular factors ARE the Laplace determinants
+   (of S = L S_w L^T, of Kzz = L L^T and of S_w = C C^T), and det S = det Kzz * det S_w; every n *)
+Theorem c14_kl_logdet_whitening_triangular :
+  forall (K : Fld) n L C Sw,
+    lower n L -> lower n C -> meq n n (mmul n C (mT C)) Sw ->
+    lower n (mmul n L C) /\
+    meq n n (mmul n (mmul n L C) (mT (mmul n L C))) (unwhiten_cov n L Sw) /\
+    fmul (diag_prod n (mmul n L C)) (diag_prod n (mmul n L C)) = det n (unwhiten_cov n L Sw) /\
+    fmul (diag_prod n L) (diag_prod n L) = det n (mmul n L (mT L)) /\
+    fmul (diag_prod n C) (diag_prod n C) = det n Sw /\
+    det n (unwhiten_cov n L Sw) = fmul (det n (mmul n L (mT L))) (det n Sw).
+Proof. intros K. exact (@triangular_factor_logdet_full K). Qed.
+Print Assumptions c14_kl_logdet_whitening_triangular.
 
 (* NGD-CIQ (known finding C14-ciq-ngd-diagonal-covariance): the marginal variances the code
    returns, diag(Kxx) - sum_k A_ki^2 + sum_k (S A)_ki A_ki, ARE the diagonal of the closed form
